@@ -41,16 +41,17 @@ Theorem C11_skip_invalid :
 Proof. exact (conj invalid_no_key skip_invalid). Qed.
 Print Assumptions C11_skip_invalid.
 
-(* The whole matcher (AddSet*, Build, MatchDomainBitmap over the abstract trie, an ideal substring
-   automaton and any regexp oracle) against the spec, for all collections of sets on any bit indices,
-   all names over the alphabet, all probed indices.  Full statement: *)
+(* The whole matcher (AddSet* with its validation of full, suffix and keyword patterns, Build with its
+   error paths, MatchDomainBitmap over the abstract trie, the keyword automaton and any regexp oracle)
+   against the spec, for all collections of sets on any bit indices, all names over the alphabet, all
+   probed indices.  The automaton is taken as the library behaves: a substring matcher that never reports
+   an empty pattern.  Full statement: *)
 Definition C11_matcher_full : Prop :=
   forall rx_ok rx sets names idxs, forallb name_ok names = true ->
     model_answer rx_ok rx sets names idxs = spec_answer rx_ok rx sets names idxs.
 
-(* ... which the faithful model falsifies: keyword patterns are handed to the automaton unchecked, and the
-   automaton is run on "^name$", so a keyword "^a" matches the name "ab" although it contains a byte
-   outside the alphabet and should have been skipped. *)
+(* ... which the faithful model falsifies in exactly one way (recorded as the open finding
+   C11/keyword-empty): the empty keyword is contained in every name but is never matched. *)
 Theorem C11_matcher_refuted :
   exists sets names idxs, forallb name_ok names = true /\
     model_answer (fun _ => true) (fun _ _ => false) sets names idxs
@@ -58,16 +59,17 @@ Theorem C11_matcher_refuted :
 Proof. exact matcher_full_refuted. Qed.
 Print Assumptions C11_matcher_refuted.
 
-(* Proved part: the same statement for collections whose keyword patterns are over the alphabet
-   (full, suffix and regex patterns are unrestricted). *)
+(* Proved: the same statement for every collection in which no keyword pattern is the empty string —
+   patterns of every kind may contain any bytes (invalid ones are skipped), any number of sets, several
+   sets per bit index, regular expressions that do not compile. *)
 Theorem C11_matcher_partial : forall rx_ok rx sets names idxs,
-  kw_plain sets = true -> forallb name_ok names = true ->
+  kw_nonempty sets = true -> forallb name_ok names = true ->
   model_answer rx_ok rx sets names idxs = spec_answer rx_ok rx sets names idxs.
 Proof. exact matcher_partial. Qed.
 Print Assumptions C11_matcher_partial.
 
 Example C11_matcher_nonvacuous :
-  kw_plain ex_sets = true /\ forallb name_ok ex_names = true /\
+  kw_nonempty ex_sets = true /\ forallb name_ok ex_names = true /\
   model_answer (fun _ => true) (fun _ _ => false) ex_sets ex_names [3; 32; 1023; 5]
   = Some [[3; 32; 1023]; [3; 1023]; [1023]; [3; 1023]; [3; 1023]; [3]; []].
 Proof. exact matcher_nonvacuous. Qed.
@@ -75,7 +77,7 @@ Proof. exact matcher_nonvacuous. Qed.
 (* Bit i depends only on the sets attached to i. *)
 Theorem C11_sets_independent : forall rx_ok rx sets sets' raw i,
   filter (fun x => ps_idx x =? i) sets = filter (fun x => ps_idx x =? i) sets' ->
-  kw_plain sets = true -> kw_plain sets' = true -> name_ok raw = true ->
+  kw_nonempty sets = true -> kw_nonempty sets' = true -> name_ok raw = true ->
   sets_ok rx_ok sets = true -> sets_ok rx_ok sets' = true ->
   model_answer rx_ok rx sets [raw] [i] = model_answer rx_ok rx sets' [raw] [i].
 Proof. exact sets_independent. Qed.
